@@ -89,6 +89,7 @@ def meta_text(case):
     lines.append("acqApLfSy=384,0,1")
     lines.append("nSavedChans=%d" % (nsaved + 1))
     lines.append("snsApLfSy=%d,0,1" % nsaved)
+    case["_nsaved"] = nsaved
     lines.append("snsSaveChanSubset=%s" % case.get("subset_text", "0:%d" % nsaved))
     if case["enc"] != 2:
         lines.append(map_text(gen, case["enc"], case["entries"]))
@@ -135,25 +136,51 @@ def flat_geom(cg):
 # ---------------------------------------------------------------------------
 # implementation runners
 # ---------------------------------------------------------------------------
-def run_geometry(case, tdir):
-    """-> dict with the canonicalised observations of all public entry points."""
+def run_geometry(case, tdir, rng=None):
+    """-> dict with the canonicalised observations of all public entry points.  The queries are issued in a
+    per-case random order (rng), the first one is repeated at the end, and the lf companion file of the same
+    probe (same site table) is queried after the ap file: all in one process, on the same map string."""
     import spikeglx
     f = tdir / ("c%d.ap.meta" % case["id"])
-    f.write_text(meta_text(case))
+    txt = meta_text(case)
+    f.write_text(txt)
     gen = case["gen"]
     obs = {}
+
+    def q_gfm(srt):
+        g, inds = spikeglx.geometry_from_meta(md, return_index=True, sort=srt)
+        return (canon_geom(g, gen), ints(inds))
+
+    def q_noindex(srt):
+        return canon_geom(spikeglx.geometry_from_meta(md, sort=srt), gen)
+
+    def q_reader(srt):
+        sr = spikeglx.Reader(f, open=False, sort=srt)
+        return (canon_geom(sr.geometry, gen), ints(sr.raw_channel_order))
+
+    queries = [(("gfm", srt), q_gfm, srt) for srt in (False, True)] + \
+              [(("gfm_noindex", srt), q_noindex, srt) for srt in (False, True)] + \
+              [(("reader", srt), q_reader, srt) for srt in (False, True)] + \
+              [("read_geometry", lambda _: canon_geom(spikeglx.read_geometry(f), gen), None),
+               ("nshanks", lambda _: int(spikeglx._get_nshanks_from_meta(md)), None)]
+    if rng is not None:
+        rng.shuffle(queries)
     with warnings.catch_warnings():
         warnings.simplefilter("ignore")
         md = spikeglx.read_meta_data(f)
-        for srt in (False, True):
-            g, inds = spikeglx.geometry_from_meta(md, return_index=True, sort=srt)
-            obs[("gfm", srt)] = (canon_geom(g, gen), ints(inds))
-            g2 = spikeglx.geometry_from_meta(md, sort=srt)
-            obs[("gfm_noindex", srt)] = canon_geom(g2, gen)
-            sr = spikeglx.Reader(f, open=False, sort=srt)
-            obs[("reader", srt)] = (canon_geom(sr.geometry, gen), ints(sr.raw_channel_order))
-        obs["read_geometry"] = canon_geom(spikeglx.read_geometry(f), gen)
-        obs["nshanks"] = int(spikeglx._get_nshanks_from_meta(md))
+        for key, fn, arg in queries:
+            obs[key] = fn(arg)
+        key, fn, arg = queries[0]
+        obs["repeat_same"] = fn(arg) == obs[key]            # same question, same process, same answer
+        obs["query_order"] = [str(q[0]) for q in queries]
+        # the lf file of the same probe carries the same site table
+        if case["enc"] != 2 and "snsApLfSy=%d,0,1" % case.get("_nsaved", -1) in txt:
+            flf = tdir / ("c%d.lf.meta" % case["id"])
+            flf.write_text(txt.replace("snsApLfSy=%d,0,1" % case["_nsaved"], "snsApLfSy=0,%d,1" % case["_nsaved"]))
+            obs["lf_read_geometry"] = canon_geom(spikeglx.read_geometry(flf), gen)
+            srl = spikeglx.Reader(flf, open=False, sort=False)
+            obs["lf_reader_unsorted"] = (canon_geom(srl.geometry, gen), ints(srl.raw_channel_order))
+            flf.unlink()
     f.unlink()
     return obs
 
@@ -189,6 +216,11 @@ def oracle_geometry(case, obs):
     if obs[("reader", False)][0] != gu or obs[("reader", True)][0] != gs or obs["read_geometry"] != gs \
             or obs[("gfm_noindex", False)] != gu or obs[("gfm_noindex", True)] != gs:
         bad.append(("entry_points", "Reader.geometry / read_geometry / geometry_from_meta disagree"))
+    if not obs.get("repeat_same", True):
+        bad.append(("entry_points", "the same geometry query asked twice in one process gives two answers "
+                                    "(order of queries %s)" % obs.get("query_order")))
+    if "lf_read_geometry" in obs and (obs["lf_read_geometry"] != gs or obs["lf_reader_unsorted"][0] != gu):
+        bad.append(("entry_points", "the lf file of the same probe (same site table) gives another geometry"))
     for srt, (g, inds) in ((False, (gu, iu)), (True, (gs, is_))):
         ro = obs[("reader", srt)][1]
         if ro[:n] != inds or ro[n:] != list(range(n, len(ro))):
@@ -269,6 +301,11 @@ def gen_sites(rng, gen, n, kind):
     elif kind == "reversed":
         st = rng.randrange(0, total - n + 1)
         pos = [natural(gen, st + i) for i in range(n)][::-1]
+    elif kind == "highrows":       # few sites, rows far above the number of sites, every bank, every shank
+        n = min(n, 24)
+        cand = [(s_, c_, r_) for s_ in range(ns) for c_ in range(ncol)
+                for r_ in sorted({nrow - 1 - k for k in range(0, nrow, max(1, nrow // 40))} | {nrow - 1, nrow - 2})]
+        pos = rng.sample(cand, min(n, len(cand)))
     elif kind == "fewrows":        # many ties on the row: a handful of rows, all columns and shanks
         rows = rng.sample(range(nrow), min(nrow, max(1, -(-n // (ns * ncol)))))
         allp = [(s, c, r) for r in rows for s in range(ns) for c in range(ncol)]
@@ -362,7 +399,7 @@ def run(ctx):
         ctx.coverage["fixture_convention_sites"] = n_fix
         # ---------------- geometry_from_meta & friends ----------------
         tables = []
-        kinds = ["block", "random", "random", "swaps", "reversed", "fewrows", "interleaved"]
+        kinds = ["block", "random", "random", "swaps", "reversed", "fewrows", "interleaved", "highrows"]
         ntab = 5000 if ctx.thorough() else 110
         for t in range(ntab):
             gen = rng.choice(["NP1", "NP1", "NP2.1", "NP2.4", "NP2.4", "NPultra"])
@@ -400,7 +437,7 @@ def run(ctx):
                     case = make_case(rng, cid, gen, sites, enc, split, template=tmpl, type_code=tcode, kind=kind)
                     cid += 1
                     try:
-                        obs = run_geometry(case, tdir)
+                        obs = run_geometry(case, tdir, rng)
                     except Exception as e:
                         ctx.fail("geometry of a valid site table raised %r" % (e,), describe(case),
                                  {"clause": "exception"})
@@ -429,7 +466,9 @@ def run(ctx):
                                         "sorted_x": obs[("gfm", True)][0]["x"],
                                         "sorted_y": obs[("gfm", True)][0]["y"]})
                 # the two encodings of one table give the same geometry
-                if (split, 0) in per_enc and (split, 1) in per_enc and per_enc[(split, 0)] != per_enc[(split, 1)]:
+                if (split, 0) in per_enc and (split, 1) in per_enc and \
+                        {k: v for k, v in per_enc[(split, 0)].items() if k != "query_order"} != \
+                        {k: v for k, v in per_enc[(split, 1)].items() if k != "query_order"}:
                     ctx.fail("shank-map and geometry-map encodings of the same sites give different geometries",
                              describe(make_case(rng, -1, gen, sites, 0, split, template=tmpl, type_code=tcode)),
                              {"clause": "encodings"})
